@@ -215,7 +215,7 @@ func (c *Chain) RSnapshot() *RSnap {
 		s.Subs = append(s.Subs, RSub{ID: id, Owner: c.RID(g.Owner), Dep: g.Balance.DepositedAmount.BigInt(),
 			Spent: g.Balance.SpentAmount.BigInt(), Wd: g.Balance.WithdrawnAmount.BigInt(), Lost: g.Balance.LostAmount.BigInt(),
 			Bal: c.Bal(sdk.MustAccAddressFromBech32(g.Address)).BigInt()})
-		for _, l := range g.LockedBalances {
+		for _, l := range c.allLocks(g.Address) {
 			s.Locks = append(s.Locks, RLk{id, l.UnlockTS, l.Amount.BigInt()})
 		}
 	}
